@@ -257,6 +257,18 @@ CHECKS["C16"] = dict(
               "builtin",
 )
 
+CHECKS["C17"] = dict(
+    text="VyNumTheory gives the textbook definitions (trial-division primality, divisors, Euclid, recurrences, totient "
+         "by counting and by the product formula over verified primes, repeated division for binary/hex) and the laws "
+         "relating a result to its argument; MC_NumTheory checks that the definitions agree with each other on 1..400. "
+         "For every n of the tier's domain and every pair n, m the builtins are called and TLC judges each result with "
+         "its law; factorial and binomial are checked by their recurrences on logged neighbours over unbounded integers.",
+    note="Trusted: the definitions in spec/VyNumTheory.tla; prime factors / divisors are judged as collections (order "
+         "is not part of the definition). Transcribed-function form: the quantifier is over inputs.",
+    ref="DESIGN.md section 6 C17",
+    technique="TLA+ definitions and laws (VyNumTheory, sanity-checked by TLC) evaluated by TLC on every logged call",
+)
+
 NOT_APPLICABLE = {}
 
 DEFAULT_NA = ("check under construction in this round; it will be claimed when its TLA+ module and "
